@@ -9,7 +9,7 @@ TIMEOUT = 240.0
 
 CURVES_PLAIN = ['NIST_P256', 'BSI_P256', 'SM2_P256', 'SECG_K256', 'SM9_P256']
 MLENS = [0, 1, 31, 32, 33, 55, 56, 63, 64, 65, 119, 120, 127, 128, 129]
-RSABITS = [768, 770, 776, 1010, 1017, 1018, 1024]
+RSABITS = [768, 770, 776, 784, 792, 800, 808, 816, 824, 976, 1010, 1017, 1018, 1024]     # every residue of the bit length and of the byte length mod 8
 
 BN_FAULTS = ['flip', 'flip', 'v_zero', 'v_ord', 'v_addord', 'v_negmod', 'v_inc', 'v_neg', 'v_one', 'prefix0', 'v_rand', 'v_big']
 PT_FAULTS = ['flip', 'flip', 'v_inf', 'v_gen', 'v_neg', 'v_dbl', 'v_rand', 'v_offcurve', 'tag', 'trunc1', 'set']
